@@ -54,6 +54,8 @@ def _nested_option_some_none(t, v):
         return _nested_option_some_none(a[0 if v[0] == "Left" else 1], v[1])
     if p in ("list", "set"):
         return any(_nested_option_some_none(a[0], x) for x in v)
+    if p == "big_map" and isinstance(v, tuple):
+        return False
     if p in ("map", "big_map"):
         return any(_nested_option_some_none(a[0], k) or _nested_option_some_none(a[1], x) for k, x in v)
     return False
@@ -214,7 +216,7 @@ def replay(case):
 def cases(draw, depth):
     t = draw(gt.types(depth, leaves=LEAVES, collections=True, lambdas=True, big_maps=True))
     at = draw(gt.decorate(t, field_ok=True))
-    v = draw(gt.values(t))
+    v = draw(gt.values(t, ptrs=True))
     return {"t": at, "v": rv.to_micheline(t, v), "as_parameter": draw(st.booleans())}
 
 
